@@ -177,7 +177,8 @@ def ti_corruptions(rng, table, n):
             what = "header-version"
         elif k < 0.45:
             sec, key = rng.choice([("release", "name"), ("release", "version"), ("tree", "arch"), ("tree", "platforms"),
-                                   ("tree", "build_timestamp")] + [(s, f) for s in vsecs for f in ("id", "uid", "name", "type")])
+                                   ("tree", "build_timestamp"), ("header", "type"), ("header", "type")]
+                                  + [(s, f) for s in vsecs for f in ("id", "uid", "name", "type")])
             if key in t.get(sec, {}):
                 del t[sec][key]
                 what = "delete-key:%s.%s" % (sec.split("-")[0], key)
